@@ -148,6 +148,7 @@ func ExecRPlan(p *RPlan, trace bool) *core.Result {
 	if r0, err := libaudit.NewReassembler(p.Max, time.Duration(p.Timeout), nil); err == nil || r0 != nil {
 		res.Add("C19", "nil-stream-accepted", "new", "NewReassembler accepted a nil Stream")
 	}
+	rawBuf := make([]byte, 128)
 	ra, err := libaudit.NewReassembler(p.Max, time.Duration(p.Timeout), st)
 	if err != nil {
 		res.Add("C19", "constructor-failed", "new", err.Error())
@@ -207,8 +208,14 @@ func ExecRPlan(p *RPlan, trace bool) *core.Result {
 				ra.PushMessage(m)
 				isPush = true
 			case opPushRaw:
+				// like a netlink receive loop, the caller reuses one buffer
+				// for every record and overwrites it after Push returned.
 				raw := fmt.Sprintf("audit(%d.%03d:%d): id=%d", 1500000000+i, i%1000, seqOf(op.Off), i)
-				callErr = ra.Push(auparse.AuditMessageType(op.Typ), []byte(raw))
+				n := copy(rawBuf, raw)
+				callErr = ra.Push(auparse.AuditMessageType(op.Typ), rawBuf[:n])
+				for j := 0; j < n; j++ {
+					rawBuf[j] = '#'
+				}
 				isPush = callErr == nil
 				if callErr != nil {
 					res.Probes[prPushError]++
